@@ -18,12 +18,28 @@ func usage() {
 	os.Exit(2)
 }
 
+// outDir: where evidence and replay files go (default: the verif directory)
+var outDir string
+
+func outBase() string {
+	if outDir != "" {
+		return outDir
+	}
+	return verifDir
+}
+
 func main() {
 	if len(os.Args) < 2 {
 		usage()
 	}
 	if v := os.Getenv("VERIF_DIR"); v != "" {
 		verifDir = v
+	}
+	if v := os.Getenv("SYMGO_REPO"); v != "" {
+		repoDir = v
+	}
+	if v := os.Getenv("SYMGO_OUT"); v != "" {
+		outDir = v
 	}
 	switch os.Args[1] {
 	case "check":
@@ -225,7 +241,7 @@ func cmdCheck(args []string) int {
 	nviol := 0
 	var results []*HarnessResult
 	knownSeen := map[string]bool{}
-	os.MkdirAll(filepath.Join(verifDir, "replays"), 0o755)
+	os.MkdirAll(filepath.Join(outBase(), "replays"), 0o755)
 	for _, h := range prop.Harnesses {
 		if *only != "" && h.Func != *only {
 			continue
@@ -269,7 +285,7 @@ func cmdCheck(args []string) int {
 		for i, v := range res.Violations {
 			rf := buildReplay(id, h, res.Params, v)
 			b, _ := json.MarshalIndent(rf, "", " ")
-			p := filepath.Join(verifDir, "replays", fmt.Sprintf("%s-%s-%d.json", id, h.Func, i))
+			p := filepath.Join(outBase(), "replays", fmt.Sprintf("%s-%s-%d.json", id, h.Func, i))
 			os.WriteFile(p, b, 0o644)
 			ok, out, err := nativeReplay(l, rf, p)
 			if err != nil || !ok {
@@ -418,8 +434,8 @@ func writeEvidence(id, tier string, seed int, prop *PropSpec, results []*Harness
 		ev.Assumptions = []string{}
 	}
 	b, _ := json.MarshalIndent(ev, "", " ")
-	os.MkdirAll(filepath.Join(verifDir, "evidence"), 0o755)
-	os.WriteFile(filepath.Join(verifDir, "evidence", id+".json"), b, 0o644)
+	os.MkdirAll(filepath.Join(outBase(), "evidence"), 0o755)
+	os.WriteFile(filepath.Join(outBase(), "evidence", id+".json"), b, 0o644)
 }
 
 // cmdExec runs a harness inside the engine on the concrete inputs of a replay file.
